@@ -137,6 +137,15 @@ def gen_case(rng, direction, opts=None):
             dst[p] = (data + b"+", mt)
         elif st == "mtime":
             dst[p] = (data, (mt[0] + rng.pick([1, 2, 3600, -1]) if mt[0] > 0 else 5, mt[1]))
+    # a tree that once was (or still is) a hub: `.copia/commit.lock` and friends are ordinary files to a mirror
+    if opts.get("hubdir", True) and rng.chance(1, 12):
+        for p, where in ((".copia/commit.lock", "both"), (".copia/notes.txt", rng.pick(["src", "dst", "both"])), (".copia/sub/x", rng.pick(["src", "dst"]))):
+            data = gen_content(rng, rng.pick([0, 17, 100]))
+            if where in ("src", "both"):
+                src[p] = (data, (1_700_000_000, 0))
+                names.append(p)
+            if where in ("dst", "both"):
+                dst[p] = (data if where == "both" and rng.chance(1, 2) else data + b"+", (1_600_000_000, 0))
     # failure branch: a destination DIRECTORY where the source has a file
     if opts.get("clash", True) and src and rng.chance(1, 10):
         victim = rng.pick(sorted(src))
